@@ -111,18 +111,16 @@ CATALOGUE = [
      'new': "            if not continue_on_error:\n                raise e\n            continue_on_error = False\n",
      'note': 'continue-on-error honoured only for the first failure'},
     {'id': 'm-c12-skip-plus-two', 'props': ['C12'], 'file': D,
-     'old': "                    idx_start += bufr_message.length.value\n                except PyBufrKitError:",
-     'new': "                    idx_start += bufr_message.length.value + 2\n                except PyBufrKitError:",
+     'old': "        if 2 <= edition <= 4 and nbytes >= 8 and idx_start + nbytes <= len(s):\n            return nbytes\n",
+     'new': "        if 2 <= edition <= 4 and nbytes >= 8 and idx_start + nbytes <= len(s):\n            return nbytes + 2\n",
      'note': 'skipping a damaged message advances two octets too far'},
     {'id': 'm-c12-no-conversion-of-foreign-errors', 'props': ['C12'], 'file': D,
      'old': "        except PyBufrKitError:\n            raise\n        except Exception as e:\n",
      'new': "        except PyBufrKitError:\n            raise\n        except ZeroDivisionError as e:\n",
      'note': 'reverts the repair 7f10517: IndexError / NotImplementedError under length damage escape again '
              '(the default seed does not reach them; the regression corpus does)'},
-    {'id': 'm-c12-missing-stop-signature-tolerated', 'props': ['C12'], 'file': D,
-     'old': "        bit_reader = get_bit_reader(s)\n        bufr_message = BufrMessage(file_path)\n",
-     'new': "        bit_reader = get_bit_reader(s if s[-4:] == b'7777' else s + b'7777')\n        bufr_message = BufrMessage(file_path)\n",
-     'note': 'a message cut right before its stop signature decodes (the decoder supplies the missing 7777)'},
+    # (m-c12-missing-stop-signature-tolerated - the decoder supplying a missing 7777 - was dropped in round 9: since the
+    #  repair 68d6a2f the octets the sections cover must equal the declared total length, so that change is harmless)
     {'id': 'm-c12-no-stop-signature-check', 'props': ['C12'], 'file': D,
      'old': "            if parameter.expected is not None and parameter.value != parameter.expected:\n",
      'new': "            if parameter.expected is not None and parameter.value != parameter.expected and section.get_metadata('index') != 5:\n",
@@ -134,11 +132,11 @@ CATALOGUE = [
      'old': "        except PyBufrKitError as e:\n            if not continue_on_error:\n                raise e\n",
      'new': "        except PyBufrKitError as e:\n            if not continue_on_error and not info_only:\n                raise e\n",
      'note': 'metadata-only scanning swallows failures even without continue-on-error'},
-    {'id': 'm-c12-skip-handler-unprotected', 'props': ['C12'], 'file': D,
-     'old': "                try:\n                    bufr_message = decoder.process(\n                        s[idx_start:], start_signature=None, info_only=True, *args, **kwargs)\n                    idx_start += bufr_message.length.value\n                except PyBufrKitError:\n                    idx_start += 1\n",
-     'new': "                bufr_message = decoder.process(\n                    s[idx_start:], start_signature=None, info_only=True, *args, **kwargs)\n                idx_start += bufr_message.length.value\n",
-     'note': 'the continue-on-error handler re-reads the header without protection: a message whose header is '
-             'unreadable (end of input inside sections 0-3, section 1 length damage) ends the scan with an error'},
+    {'id': 'm-c12-skip-by-one-octet', 'props': ['C12'], 'file': D,
+     'old': "        if 2 <= edition <= 4 and nbytes >= 8 and idx_start + nbytes <= len(s):\n            return nbytes\n",
+     'new': "        if 2 <= edition <= 4 and nbytes >= 8 and idx_start + nbytes <= len(s):\n            return 1\n",
+     'note': 'reverts the repair 1bc80ab in effect: after a failed message the search resumes at the next octet, a start '
+             'signature held by the damaged message begins a message'},
     # ---- C17
     {'id': 'm-c17-last-match', 'props': ['C17'], 'file': MQ,
      'old': "        for section in sections:\n            for parameter in section:",
@@ -173,7 +171,8 @@ CATALOGUE = [
      'new': "            a = TableA(table_group_key)\n            b = TableB(table_group_key, self.extra_b_entries)\n            c = TableC(table_group_key)\n            r = TableR(table_group_key)\n            d = TableD.__new__(TableD)\n            d.descriptors = {}\n            self._groups[table_group_key] = BufrTableGroup(a, b, c, d, r)\n            d.__init__(b, c, r, table_group_key, self.extra_d_entries)\n",
      'note': 'table group is inserted into the cache before Table D is loaded: an I/O error leaves a half-built group'},
     {'id': 'm-c13-coder-remembers-new-refvals', 'props': ['C13'], 'file': CO,
-     'old': "        self.new_refvals = {}\n", 'new': "        self.new_refvals = CoderState._shared_refvals\n",
+     'old': "        self.new_refvals = {}  # 2 03 255 to conclude, not cancel\n",
+     'new': "        self.new_refvals = CoderState._shared_refvals\n",
      'extra': [{'file': CO, 'old': "class CoderState(object):\n", 'new': "class CoderState(object):\n    _shared_refvals = {}\n"}],
      'note': '203YYY new reference values survive from one message to the next'},
     {'id': 'm-c13-normalize-memo-ignores-root', 'props': ['C13'], 'file': T,
@@ -203,7 +202,9 @@ CATALOGUE = [
      'note': 'a re-loaded template without local tables resolves its descriptors in the default table group'},
     # ---- C20
     {'id': 'm-c20-no-invalidate', 'props': ['C20'], 'file': D,
-     'old': "                    TableGroupCacheManager.invalidate()\n", 'new': "                    pass\n",
+     'old': "                    _, b_entries, d_entries = BufrTableDefinitionProcessor().process(bufr_message)\n                    TableGroupCacheManager.invalidate()\n",
+     'new': "                    _, b_entries, d_entries = BufrTableDefinitionProcessor().process(bufr_message)\n",
+
      'note': 'table groups cached before the definition keep the old meaning'},
     {'id': 'm-c20-replace-instead-of-update', 'props': ['C20'], 'file': T,
      'old': "        self.extra_b_entries.update(b_entries)\n",
@@ -221,8 +222,8 @@ CATALOGUE = [
      'new': "            d = TableD(b, c, r, table_group_key, self.extra_d_entries if len(self.extra_d_entries) < 3 else {})\n",
      'note': 'more than two defined sequences: none is registered'},
     {'id': 'm-c20-only-first-definition', 'props': ['C20'], 'file': D,
-     'old': "                        and bufr_message.n_subsets.value > 0):\n",
-     'new': "                        and bufr_message.n_subsets.value > 0 and not TableGroupCacheManager.has_extra_entries()):\n",
+     'old': "            else:\n                if (bufr_message.data_category.value == DATA_CATEGORY_DEFINE_BUFR_TABLES\n                        and bufr_message.n_subsets.value > 0):\n",
+     'new': "            else:\n                if (bufr_message.data_category.value == DATA_CATEGORY_DEFINE_BUFR_TABLES\n                        and bufr_message.n_subsets.value > 0 and not TableGroupCacheManager.has_extra_entries()):\n",
      'note': 'only the first definition message of a process is applied'},
     {'id': 'm-c20-last-member-dropped', 'props': ['C20'], 'file': DP,
      'old': "                [next_value() for i in range(next_value())]\n",
